@@ -48,7 +48,7 @@ func lsRemotePart(c *vf.Ctx, g *gitx.Git) {
 	stub := filepath.Join(c.Scratch, "stub-upload-pack.sh")
 	c.Must(os.WriteFile(stub, []byte("#!/bin/sh\ncat \"$C35_ADV\"\ncat >/dev/null\n"), 0o755), "write stub")
 	dir := c.TempDir("lsremote")
-	n := c.N(110, 1500)
+	n := c.N(90, 1500)
 	vf.Parallel(n, 6, func(i int) {
 		m := genAdv(c.Rand("adv-git", i), false)
 		v := m.value()
